@@ -241,6 +241,54 @@ def r17_4(ctx, counts) -> RuleResult:
     return res
 
 
+def r17_5(ctx, counts) -> RuleResult:
+    model: Model = ctx.model
+    res = RuleResult(
+        'R17.5', 'SERIALIZER-NO-ROUNDING',
+        'Serialization writes the value it is given: in elementpath/serialization.py no numeric '
+        'value passes a rounding operation — `.quantize(…)`, `round(…)`, or a format '
+        'specification with a fixed precision (`%.2f`, `{:.2f}`, format(x, ".2f")). A rounding '
+        'step in the serializer changes every value with more digits (serialize(3.14159, json) '
+        'gave 3.15), so parse-json(serialize($v)) differs from $v.')
+    mod = model.modules.get('elementpath.serialization')
+    if mod is None:
+        raise AnalysisError('elementpath/serialization.py vanished')
+    import re as _re
+    prec = _re.compile(r'%[-+ 0#]*\d*\.\d+[feEgG]|\{[^{}]*:[^{}]*\.\d+[feEgG%]?\}|^[^{}]*\.\d+[feEgG%]$')
+    n = 0
+    funcs = [f for f in model.all_functions() if f.module is mod]
+    for f in sorted(funcs, key=lambda q: q.key):
+        n += 1
+        bad = []
+        for x in walk_local(f.node):
+            if isinstance(x, ast.Call):
+                nm = dotted(x.func).split('.')[-1] if not isinstance(x.func, ast.Attribute) \
+                    else x.func.attr
+                if nm in ('quantize', 'round', '__round__'):
+                    bad.append((x, f'{nm}()'))
+                if nm == 'format' and any(isinstance(a, ast.Constant) and isinstance(a.value, str)
+                                          and prec.search(a.value) for a in x.args[1:2]):
+                    bad.append((x, 'format() with a fixed precision'))
+            if isinstance(x, ast.Constant) and isinstance(x.value, str) and prec.search(x.value) \
+                    and ('%' in x.value or '{' in x.value):
+                bad.append((x, f'format string {x.value!r}'))
+            if isinstance(x, ast.FormattedValue) and x.format_spec is not None and \
+                    prec.search(stmt_text(x.format_spec).strip("f'\"")):
+                bad.append((x, 'f-string with a fixed precision'))
+        res.instances.append(f'{f.key}: {len(bad)} rounding operation(s)')
+        if not bad:
+            res.ok()
+        for x, what in bad:
+            res.fail(finding('R17.5', f, x, f'{what} in serializer',
+                             f'`{stmt_text(x)[:60]}`: {what} in the serializer rounds the value '
+                             f'being written (serialize(3.14159, map{{"method":"json"}}) gave '
+                             f'3.15): the output no longer denotes the value'))
+    counts['serializer_functions'] = n
+    if n < 4:
+        raise AnalysisError(f'only {n} functions located in elementpath/serialization.py')
+    return res
+
+
 def _shared(ctx, counts) -> list:
     """is_xml_codepoint decides which characters parse-json / json-to-xml replace (R09.3)"""
     from .c09_strings import r09_3
@@ -273,7 +321,8 @@ def run(ctx) -> dict:
     pure = r05_1(ctx, counts, only=json_funcs, rule='R05.1')
     state = r19_5(ctx, counts, lambda f: f.module.name == 'elementpath.serialization', 0)
     return {
-        'results': [r1, r17_2(ctx, counts), r17_3(ctx, counts), r17_4(ctx, counts), pure, state]
+        'results': [r1, r17_2(ctx, counts), r17_3(ctx, counts), r17_4(ctx, counts), r17_5(ctx, counts),
+                    pure, state]
         + _shared(ctx, counts),
         'counts': counts,
         'explanation':
